@@ -8,7 +8,7 @@ ID = "C04"
 LEVEL = "exploration"
 RULE = ("texts are assembled from pieces (words, keyword, numbers, quoted strings with blanks and "
         "non-ASCII letters, ';', brackets, // comments, /* */ comments closing on the same or on a later "
-        "line, blank runs with tabs, line breaks, blank lines, trailing blanks) while the harness tracks "
+        "line, blank runs with tabs, form feeds and other whitespace characters, line breaks, blank lines, trailing blanks) while the harness tracks "
         "(line, column) of every piece itself; each text is given as str and as list of lines, to four "
         "tokenizer configurations (comments skipped / comments as grammar tokens / blanks as grammar "
         "tokens / no span matcher) and parsed with a statement grammar that has nullable nodes before "
@@ -91,7 +91,7 @@ def get_parser(cfg_id):
 WORDS = ["ab", "x", "foo_bar", "iff", "z"]
 NUMS = ["0", "12", "007"]
 STRS = ['""', '"s t"', '"é中 x"', '"// no"', '"/* no */"', '"a;b"']
-BLANKS = [" ", "  ", "\t", " \t ", "    "]
+BLANKS = [" ", "  ", "\t", " \t ", "    ", " \x0c", "\x0b", "\x0c", "\u00a0 ", " \u2003", "\x1f "]
 ML_BODIES = ["", " x ", " a\nb ", "\n\n q", " é\n  \n\t* z ", "\n", " 1\n 2\n 3 ", " ; \" "]
 EOL_BODIES = ["", " c", " x /* y", " é中;"]
 
